@@ -9,6 +9,7 @@ import (
 	"math"
 	"os"
 	"path/filepath"
+	"sort"
 	"strconv"
 	"strings"
 	"time"
@@ -279,10 +280,31 @@ func runCase(k *mon.Case) {
 			pts[1+r.Intn(E)] = true
 		}
 	}
+	// the clean shutdown at the end of the workload (everything after the last operation returned) is crashed too, once
+	// under each model: the final flushes must leave a store that survives a power failure right after they return
+	forced := map[int]string{}
+	if n := len(opEnd); n > 0 && n == len(w.Ops) && opEnd[n-1] < E {
+		for _, md := range []string{crashkit.ModePowerLoss, crashkit.ModeDeath} {
+			p := opEnd[n-1] + 1 + r.Intn(E-opEnd[n-1])
+			if !pts[p] {
+				pts[p] = true
+				forced[p] = md
+				k.Count("crash.points_inside_the_final_close", 1)
+			}
+		}
+	}
+	var order []int
 	for kpt := range pts {
+		order = append(order, kpt)
+	}
+	sort.Ints(order)
+	for _, kpt := range order {
 		mode := crashkit.ModeDeath
 		if r.Chance(1, 2) {
 			mode = crashkit.ModePowerLoss
+		}
+		if md, ok := forced[kpt]; ok {
+			mode = md
 		}
 		second := 0
 		if r.Chance(1, 6) {
